@@ -460,7 +460,7 @@ def _run_guard(H, dec, task):
             H.claim(off, K + 'spurious-rejection', 'a matrix normalised within 1e-5 was rejected', lambda m_: case(m_), robust=robust)
         else:
             H.claim(z3.Not(off), K + 'decoded-unnormalised', 'a matrix with a row off by more than 1e-5 was decoded', lambda m_: case(m_), robust=robust)
-        H.witness(lambda m_: case(m_, expect=res))
+        H.witness(lambda m_: case(m_, expect=res), extra=robust)
     return H.result()
 
 
